@@ -42,9 +42,11 @@ V012 == {0, 1, 2}
 RG == {"G"}
 RBG == {"B", "G"}
 RAll == {"A", "B", "E", "F", "G"}
+RBFG == {"B", "F", "G"}
 PF0 == {0}
 PFAll == {0, 65535, 65536}
 PFEdge == {0, 65536}
+PF2 == {0, 65535}
 
 TKCall == {"call"}
 TKCallX == {"call", "xsend"}
